@@ -71,9 +71,59 @@ def sh_follow_specs():
     return out
 
 
+LOREM = (b"Lorem ipsum dolor sit amet, consetetur sadipscing elitr, sed diam nonumy eirmod tempor invidunt ut labore et dolore magna aliquyam "
+         b"erat, sed diam voluptua.")
+
+
+def sample_specs():
+    """the captures of real TLS stacks shipped with the repository (test/testfiles, test/incomplete_pcaps) - an anchor that is independent
+    of the reference encoder: the repository's own end-to-end test expects the 'Lorem ipsum' text in their plaintext"""
+    import os
+    import runner
+    out = []
+    for sub, complete in (("test/testfiles", True), ("test/incomplete_pcaps", False)):
+        d = os.path.join(runner.REPO, sub)
+        if os.path.isdir(d):
+            for fn in sorted(os.listdir(d)):
+                if fn.endswith((".pcapng", ".pcap")):
+                    out.append({"file": os.path.join(sub, fn), "complete": complete})
+    return out
+
+
+def evaluate_sample(spec):
+    import os
+    import netio
+    import runner
+    wd = engine.workdir()
+    outp = os.path.join(wd, "sample.out.pcapng")
+    if os.path.exists(outp):
+        os.unlink(outp)
+    argv = ["-i", os.path.join(runner.REPO, spec["file"]), "-s", os.path.join(runner.REPO, "test/keylog.log"), "-o", outp, "-p", "443", "44330", "5556"]
+    if spec["file"].endswith(".pcap"):
+        argv.append("-l")
+    r = runner.run_inproc(argv)
+    if r.exc or r.code:
+        return {"sig": "sample capture: abort " + str(r.exc_sig or r.code), "detail": spec["file"] + (r.exc or "")[-300:], "nontrivial": True}
+    try:
+        pkts = netio.read_output(outp)
+        streams = []
+        for key, pk in oracle.flows(pkts).items():
+            if key[0] == 6:
+                stt = oracle.tcp_streams(pk)
+                streams += [stt[False], stt[True]]
+    except oracle.BadOutput as e:
+        return {"sig": "sample capture: malformed output", "detail": f"{spec['file']}: {e}", "nontrivial": True}
+    want = LOREM if spec["complete"] else b"Lorem\n"
+    sig = None
+    if not any(want in st_ for st_ in streams):
+        sig = "sample capture: the expected plaintext is not exported"
+    return {"sig": sig, "detail": spec["file"], "nontrivial": True, "labels": ["repo-sample"], "key": spec["file"]}
+
+
 def stages(tier):
     quick = tier == "quick"
-    st = [Stage("sweep", evaluate, specs=sweep_specs(0)), Stage("sh-follow", evaluate, specs=sh_follow_specs())]
+    st = [Stage("repo-samples", evaluate_sample, specs=sample_specs()), Stage("sweep", evaluate, specs=sweep_specs(0)),
+          Stage("sh-follow", evaluate, specs=sh_follow_specs())]
     if not quick:
         for v in range(1, 8):
             st.append(Stage(f"sweep-v{v}", evaluate, specs=sweep_specs(v)))
@@ -87,7 +137,8 @@ def stages(tier):
     return st
 
 
-RULE = ("one TLS connection per case, generated from (suite x valid version x EtM) x handshake shape x record history x TCP "
+RULE = ("stage repo-samples: the repository's own captures of real TLS stacks must export the 'Lorem ipsum' text its end-to-end test expects "
+        "(anchor independent of the reference encoder); then: one TLS connection per case, generated from (suite x valid version x EtM) x handshake shape x record history x TCP "
         "segmentation x endpoints; stage 'sweep' enumerates ALL table combinations; a case is non-trivial when the handshake "
         "completes and at least one direction carries >= 2 application records (cipher state carried across records); distinct "
         "= distinct (version, suite, EtM, spec-without-seed hash)")
